@@ -123,6 +123,7 @@ def explore(repo, contract, case, max_paths=400):
         ctx = contract.harness(H, case)        # dict: args, kwargs, self_obj, plus whatever post needs
         I = Interp(repo, contract.callees(case, ctx), dec, model=Model)
         I.inline_ok = set(getattr(contract, 'inline', ()))
+        I.flags = dict(ctx.get('flags', {}))
         I.protect = dict(H.protect)
         I.pc.extend(H.assumptions)
         I.assumptions.extend(H.assumptions)
@@ -144,7 +145,7 @@ def explore(repo, contract, case, max_paths=400):
 
 
 def background_axioms(I):
-    return sym.SUMS.axioms() + sym.COMP.axioms() + sym.lit_axioms() + list(I.extra_axioms)
+    return sym.SUMS.axioms() + sym.COMP.axioms() + sym.lit_axioms() + list(I.extra_axioms) + (sym.rpow_axioms() if getattr(I, 'uses_pow', True) else [])
 
 
 def obligations_for(repo, contract, case):
@@ -340,20 +341,28 @@ def _work(job):
 
 
 def _solve_z3_assertions(assertions, timeout_ms):
-    from . import quant
+    """complete quantified query with the z3 command line binary under a hard wall-clock limit (the in-process
+    timeout is not always honoured on non-linear problems)"""
     t0 = time.time()
+    s = z3.Solver()
+    s.add(*assertions)
+    text = s.to_smt2()
+    with tempfile.NamedTemporaryFile('w', suffix='.smt2', delete=False) as f:
+        f.write(text)
+        path = f.name
+    secs = max(2, int(timeout_ms / 1000))
     try:
-        res, stage, model = quant.check_qf_first(assertions, timeout_ms)
-        mt = None
-        if res == 'sat' and model is not None:
-            try:
-                mt = model.sexpr()
-            except Exception:
-                mt = None
-        reason = stage
-    except z3.Z3Exception as e:
-        res, mt, reason = 'error', None, str(e)
-    return res, mt, reason, time.time() - t0
+        p = subprocess.run(['z3-new', f'-T:{secs}', '-smt2', path], capture_output=True, text=True, timeout=secs + 10)
+        outp = (p.stdout or '').strip().splitlines()
+        res = outp[0].strip() if outp else 'unknown'
+        if res not in ('sat', 'unsat', 'unknown'):
+            res = 'unknown'
+        reason = 'full (z3 cli)' + ('' if res != 'unknown' else ' ' + ' '.join(outp[:1])[:80])
+    except subprocess.TimeoutExpired:
+        res, reason = 'unknown', 'full (z3 cli) wall-clock limit'
+    finally:
+        os.unlink(path)
+    return res, None, reason, time.time() - t0
 
 
 def discharge(obls, both=False, procs=None, z3_ms=None, cvc5_ms=None, fast=False, only=None):
